@@ -22,6 +22,7 @@ _PIN = [sum([["--restrict-function-pointer", x] for x in (
 # slots on every call; the fd/signal tables are C05's subject, the rest of the consistency check stays live.
 _PIN[0] += ["--remove-function-body", "evmap_check_integrity_"]
 _PIN.append(["--generate-function-body", "evmap_check_integrity_", "--generate-function-body-options", "nondet-return"])
+_PIN_NU = [[x.replace("single_queue.function_pointer_call.2/cb", "single_queue.function_pointer_call.2/cb,common_timeout_callback") for x in _PIN[0]]] + _PIN[1:]
 KINDS = ["K_TIMER", "K_TIMER_P", "K_IO", "K_IO_P", "K_SIG_P"]
 
 def _ob(k0, k1, L, prefix=(), **kw):
@@ -55,6 +56,23 @@ def obligations(tier):
         for sel in range(26):
             if _allowed(kinds, sel):
                 obs.append(_ob(kinds[0], kinds[1], 2, prefix=(sel,)))
+    # Histories that need two members of struct event's unions (persistent I/O event WITH a timeout, common-timeout
+    # timers, hand-activated signal events): the harness is compiled with env/event_struct_nounion.h (unions laid out as
+    # structs; sound because the library never writes one member and reads another).  Fixed call prefix, then ANY call.
+    nu = [("K_CTIMER", "K_TIMER", (1, 4)),        # common-timeout add, event_active(EV_READ), then e.g. loop +2 s: result must be READ|TIMEOUT
+          ("K_TIMER", "K_IO_P", (13, 21, 16)),    # persistent I/O add(1 s), remove_timer, active(EV_READ), then e.g. loop: no re-arm
+          ("K_TIMER", "K_IO_P", (14, 25)),        # persistent I/O with a 2 s timeout fires by timeout: deleted+re-added+re-armed
+          ("K_CTIMER", "K_CTIMER", (1, 13))]      # two timers in one common-timeout queue: FIFO
+    if tier != "quick":
+        nu += [("K_CTIMER", "K_CTIMER", (13, 1)), ("K_CTIMER", "K_CTIMER", (2, 13)), ("K_CTIMER", "K_CTIMER", (1, 13, 25)), ("K_CTIMER", "K_TIMER_P", (1, 14)),
+               ("K_IO", "K_SIG_P", (16,)), ("K_IO", "K_SIG_P", (12, 17)), ("K_TIMER", "K_IO_P", (13, 16)), ("K_TIMER", "K_IO_P", (13, 25, 25))]
+    for (k0, k1, pre) in nu:
+        o = _ob(k0, k1, len(pre) + 1, prefix=pre)
+        o["name"] = "nu_" + o["name"][5:]
+        o["defines"] = [d for d in o["defines"] if d != "C02_EXPECT_CB"] + ["C02_NOUNION", "C02_EXPECT_CB"]
+        o["instrument"] = _PIN_NU
+        o["desc"] = "union-free layout: calls %s on %s/%s then ANY call vs the reference model" % (list(pre), k0, k1)
+        obs.append(o)
     if tier != "quick":
         # known finding (predicate: a persistent signal event is added with a timeout): must still fail
         o = _ob("K_IO", "K_SIG_P", 2, prefix=(13, 25))
